@@ -162,6 +162,9 @@ class NativePasswordAuthPlugin(AuthPlugin):
         # auth_string should be:
         #   SHA1(SHA1(password))
         try:
+            if len(scramble) < 20:
+                # shorter than a SHA1 digest: not a scramble (the XOR below would silently truncate)
+                return False
             sha1_sha1_password = bytes.fromhex(auth_string or "")
             sha1_sha1_with_nonce = sha1(nonce + sha1_sha1_password).digest()
             rcvd_sha1_password = utils.xor(scramble, sha1_sha1_with_nonce)
